@@ -235,7 +235,8 @@ def run(res, tier, seed, replay):
         t = open(f, "rb").read()
         if b"INCLUDE" in t:
             continue
-        absent = [k for k, p in KIND_PREFIX.items() if first_offset(t.decode("latin1"), p) is None and k not in (15,)]
+        # absent = the keyword does not occur ANYWHERE in the text (a directive may start after a block comment on its line)
+        absent = [k for k, p in KIND_PREFIX.items() if p.strip() not in t.decode("latin1") and k not in (15,)]
         if not absent:
             continue
         ks = rng.sample(absent, min(len(absent), 3))
